@@ -220,6 +220,40 @@ def rw_module(rng, prog):
     return p, "module_path"
 
 
+_FCACHE = {}
+
+
+def inherited(w, p2, db, dialect, o2, under):
+    """Which listed defect of another property (if any) the rewritten program ran into: the
+    rewritten program is reduced with respect to its own symptom and matched against that
+    property's known findings.  Returns 'inherits:<id>' or 'inherits:none'."""
+    if not under:
+        return "inherits:none"
+    prop0, sym0 = under
+    if prop0 == "C12":
+        rp = p2          # panics are identified by their site, not by a program shape
+    else:
+        try:
+            rp, rdb = relcheck.reduce_case(w, p2, db, dialect, prop0, sym0)
+        except Exception:
+            rp = p2
+    w.db_open("d", grel.db_stmts(db))
+    marker = ""
+    if prop0 == "C05":
+        marker = "[W] " if o2.obs.get("frame_wildcard") else "[K] "
+    shape0 = dialect + " :: " + marker + relcheck.shape_of(rp)
+    if prop0 not in _FCACHE:
+        _FCACHE[prop0] = core.load_findings(prop0)
+    v = {"property": prop0, "symptom": sym0, "shape": shape0}
+    if prop0 == "C07":
+        v["shape"] = ("any" if sym0.startswith("bind:") else dialect) + " :: " + relcheck.shape_of(rp)
+        v["symptom"] = sym0.replace("sql_error:", "sqlite_prepare:")
+    for f in _FCACHE[prop0]:
+        if f.matches(v):
+            return "inherits:" + f.id
+    return "inherits:none:" + relcheck.shape_of(rp)[:120]
+
+
 REWRITES = [rw_let_prefix, rw_function, rw_function, rw_split_filter, rw_merge_filters, rw_identity, rw_identity, rw_module]
 
 
@@ -274,10 +308,12 @@ def _shard(seed, shard, n_bases):
                 obs["by_rewrite"][kind.split("+")[0]] = obs["by_rewrite"].get(kind.split("+")[0], 0) + 1
                 o2 = relcheck.run_case(w, p2, db, "d", dialect, src=src2)
                 sym = None
+                under = None
                 if o2.status == "rejected":
                     sym, det = "rewritten_rejected", o2.obs.get("reject_reason", "")
                 elif o2.status in ("panic", "abort"):
                     sym, det = "rewritten_panics", str(o2.symptoms)[:200]
+                    under = o2.symptoms[0][:2] if o2.symptoms else None
                 elif o2.status == "unspecified" or o2.status == "model_error":
                     obs["rewrite_unspecified"] += 1
                     continue
@@ -288,20 +324,20 @@ def _shard(seed, shard, n_bases):
                         d = str(o2.obs["shape"]["ctes"] - o.obs["shape"]["ctes"])
                         obs["cte_delta"][d] = obs["cte_delta"].get(d, 0) + 1
                     bad = [s for s in o2.symptoms if s[0] in ("C01", "C03", "C05", "C07")]
-                    # direct metamorphic comparison of the two executed results
-                    if not bad and o2.rows is not None and o.rows is not None:
-                        if model.bag(o2.rows) != model.bag(o.rows):
-                            bad = [("C06", "results_differ", "base %r rewritten %r" % (sorted(model.bag(o.rows).items(), key=repr)[:4], sorted(model.bag(o2.rows).items(), key=repr)[:4]))]
+                    # both sides agree with the model (rows as bag/sequence, columns by name), hence with each
+                    # other; a direct positional comparison would only re-judge column order, which C05 owns
                     if bad:
                         sym, det = "rewritten_" + bad[0][1], bad[0][2]
+                        under = (bad[0][0], bad[0][1]) if bad[0][0] != "C06" else None
                 if sym:
-                    key = (sym, kind)
+                    inh = inherited(w, p2, db, dialect, o2, under)
+                    key = (sym, kind, inh)
                     wit = None
                     if key not in seen:
                         seen.add(key)
                         wit = {"base": prog, "rewritten": p2, "db": db, "dialect": dialect, "rewrite": name,
                                "base_prql": src, "rewritten_prql": src2}
-                    viols.append({"property": "C06", "symptom": sym, "shape": "%s :: %s" % (dialect, kind), "witness": wit,
+                    viols.append({"property": "C06", "symptom": sym, "shape": "%s :: %s :: %s" % (dialect, kind, inh), "witness": wit,
                                   "detail": str(det)[:300] + " || sql: " + (o2.sql or "")[:300]})
     w.close()
     obs["nontrivial"] = [list(x) for x in obs["nontrivial"]]
@@ -360,10 +396,19 @@ def replay(case):
             sym, det = "rewritten_panics", str(o2.symptoms)
         elif o2.status == "judged":
             bad = [s for s in o2.symptoms if s[0] in ("C01", "C03", "C05", "C07")]
-            if not bad and model.bag(o2.rows) != model.bag(o.rows):
-                bad = [("C06", "results_differ", "")]
+
             if bad:
                 sym, det = "rewritten_" + bad[0][1], bad[0][2]
         if sym:
-            out.append({"property": "C06", "symptom": sym, "shape": "%s :: %s" % (case["dialect"], kind), "witness": case, "detail": det})
+            under = None
+            if o2.status in ("panic", "abort") and o2.symptoms:
+                under = o2.symptoms[0][:2]
+            elif o2.status == "judged":
+                bad2 = [s for s in o2.symptoms if s[0] in ("C01", "C03", "C05", "C07")]
+                under = (bad2[0][0], bad2[0][1]) if bad2 else None
+            w2 = core.Worker()
+            w2.db_open("d", grel.db_stmts(case["db"]))
+            inh = inherited(w2, case["rewritten"], case["db"], case["dialect"], o2, under)
+            w2.close()
+            out.append({"property": "C06", "symptom": sym, "shape": "%s :: %s :: %s" % (case["dialect"], kind, inh), "witness": case, "detail": det})
     return out
